@@ -3,6 +3,7 @@ package rules
 import (
 	"fmt"
 	"go/token"
+	"regexp"
 	"sort"
 	"strings"
 
@@ -450,6 +451,33 @@ func c14VCS(c *eng.Ctx) {
 			} else {
 				c.Check("R6", "vcs-delegates", r.Pos(), strings.HasPrefix(eng.Render(res[0]), "invoke:Ignore(p0.ignorer, p1, p2)"), "everything else is decided by the wrapped ignorer with unchanged arguments", eng.Render(res[0]))
 			}
+		}
+		// The VCS verdict wins: the wrapped ignorer is consulted only on ways
+		// through the function on which the path is not a VCS directory (so a
+		// negated user pattern can never un-ignore one).
+		tableAtom := regexp.MustCompile(`^&?synchronization/core/ignore\.vcsDirectoryNames\[synchronization/core/fastpath\.Base\(p1\)\]$`)
+		for _, in := range eng.Calls(fn) {
+			if cc := in.Common(); !cc.IsInvoke() || cc.Method.Name() != "Ignore" {
+				continue
+			}
+			paths, complete := eng.EnumPaths(fn.Blocks[0], func(b *ssa.BasicBlock) bool { return b == in.Block() }, 200)
+			n, bad := 0, 0
+			for _, p := range paths {
+				if p.Last() != in.Block() {
+					continue
+				}
+				n++
+				excluded := false
+				for _, a := range p.Atoms {
+					if !a.Pos && (a.Expr == "p2" || tableAtom.MatchString(a.Expr)) {
+						excluded = true
+					}
+				}
+				if !excluded {
+					bad++
+				}
+			}
+			c.Check("R6", "vcs-verdict-wins", in.Pos(), complete && n > 0 && bad == 0, "the wrapped ignorer is asked only where the path is not a directory named in the VCS table", fmt.Sprintf("%d of %d ways reach the wrapped ignorer without that exclusion", bad, n))
 		}
 	}
 	if ne := c.MustFunc("R6", localEPPkg, "NewEndpoint"); ne != nil {
